@@ -44,6 +44,14 @@ class CaseCtx:
 
     def setup_ops(self):
         ops = []
+        # the workspace root the client announced (scanner.rs stores it; resolution must not depend on
+        # it): varied deterministically per case -- none, the tree's top, or a directory BELOW the
+        # rootmost conftest (workspace opened inside a larger tree)
+        h = sum(map(ord, shape_key(self.case))) % 3
+        if h == 1:
+            ops.append({"op": "set_root", "path": "/vws/R"})
+        elif h == 2:
+            ops.append({"op": "set_root", "path": "/vws/R/a"})
         for p in case_list(self.case.get("plugins")):
             ops.append({"op": "mark_plugin", "path": UNI.paths[p]})
         for slot in self.case["order"]:
@@ -301,6 +309,7 @@ def check_c02(tier):
 def check_c04(tier):
     V = C.Verdict("C04", tier, "model_checking")
     meta = load_cases("Layouts_quick.cfg" if tier == "quick" else "Layouts_thorough.cfg")
+    meta_chain = load_cases("Layouts_chain.cfg")
 
     def build(ctx):
         ops, tags = goto_ops(ctx, ctx.case["goto"], all_cols=False)
@@ -376,9 +385,13 @@ def check_c04(tier):
                       "usages": len(goto_actual)})
 
     replayed = drive(meta, build, judge, only=replay_filter())
+    replayed += drive(meta_chain, build, judge, only=replay_filter())
+    cov = tlc_cov(meta, replayed)
+    cov["states"] += meta_chain["distinct"]
+    cov["transitions"] += meta_chain["transitions"]
     return V.finish(
-        coverage_extra=tlc_cov(meta, replayed),
-        rule="every (layout, order) of spec/Layouts.tla replayed; for every definition D: references(D) == "
+        coverage_extra=cov,
+        rule="every (layout, order) of spec/Layouts.tla (layout table and override-chain table) replayed; for every definition D: references(D) == "
              "{u : goto(u) == D} on the real library, no duplicates, unresolved usages listed nowhere, "
              "usage_by_fixture mirrors usages, CLI unused == no incoming usage; TLC checks Mirror and RefsInverse "
              "on the model; non-trivial = definition with at least one usage or reference",
